@@ -28,8 +28,13 @@ class PollFuture(_Future):
         super(PollFuture, self).__init__()
         self._delegate = delegate
         self._executor = executor
-        self._delegate.add_done_callback(self._delegate_resolved)
+        # Must be registered before hooking the delegate: if the delegate is
+        # already done, the line after registers us for polling at once, and the
+        # poll thread may resolve us before this constructor returns - in which
+        # case nobody would deregister us until the callback was finally added,
+        # and further polls would be shown an already resolved future.
         self.add_done_callback(self._clear_executor)
+        self._delegate.add_done_callback(self._delegate_resolved)
 
     def _delegate_resolved(self, delegate):
         assert delegate is self._delegate, "BUG: called with %s, expected %s" % (
